@@ -27,6 +27,8 @@ type Case struct {
 	ID      string                     `json:"id"`
 	Harness string                     `json:"harness"`
 	Inputs  map[string]json.RawMessage `json:"inputs"`
+	// Repeat > 1: the outcome depends on goroutine scheduling; run up to Repeat times and keep the first failing run.
+	Repeat int `json:"repeat,omitempty"`
 }
 
 // Result is what a native run of one case produced.
@@ -41,6 +43,7 @@ type Result struct {
 	Rejected bool              `json:"rejected"` // an Assume was false: inputs outside the harness's domain
 	Leaked   int               `json:"leaked"`
 	Known    []string          `json:"known"`
+	Runs     int               `json:"runs,omitempty"`
 }
 
 type state struct {
@@ -362,8 +365,23 @@ func CheckFrozen() {
 	}
 }
 
-// RunCase runs one case natively.
+// RunCase runs one case natively (repeatedly, for schedule-dependent cases, until a run fails).
 func RunCase(c Case) (res Result) {
+	n := c.Repeat
+	if n < 1 {
+		n = 1
+	}
+	for i := 0; i < n; i++ {
+		res = runOnce(c)
+		res.Runs = i + 1
+		if len(res.Failed) > 0 || res.Panic != "" || res.Leaked > 0 || res.Rejected {
+			return res
+		}
+	}
+	return res
+}
+
+func runOnce(c Case) (res Result) {
 	cur = &state{c: c, counts: map[string]int{}, msgs: map[int64]proto.Message{}}
 	cur.res = Result{ID: c.ID, Harness: c.Harness, Obs: map[string]string{}}
 	frozen = nil
